@@ -3,7 +3,7 @@
    interpolation contract), circle from model/Pupil.v. *)
 From Coq Require Import Reals List Arith.
 Require Import AOV.base.Num AOV.base.NumR AOV.base.Cplx AOV.model.Pupil AOV.model.Interp
-               AOV.proofs.Mat_proofs AOV.proofs.C16_proofs AOV.proofs.C16_zoom_poly.
+               AOV.proofs.Mat_proofs AOV.proofs.C16_proofs AOV.proofs.C16_zoom_poly AOV.proofs.C16_ee.
 Import ListNotations.
 Local Open Scope R_scope.
 
@@ -79,6 +79,39 @@ Proof. intros G K n data xc yc Hwf Hnn Hpos. repeat apply conj.
   - intros r He. apply (ee_empty_zero G K n data xc yc r Hwf He).
   - intros rads. apply ee_curve_snd. Qed.
 Print Assumptions C16_encircled_energy_curve.
+
+(* what encircled_energy RETURNS -- the curve resampled by numpy.interp on linspace(0, dim, 4 dim) -- starts at (0, 0),
+   stays within [0, 1] and never decreases, for every non-negative image, centre and non-decreasing list of radii; the
+   reported diameter is the first grid point at which the curve is closest to the requested fraction *)
+Theorem C16_returned_encircled_energy_curve : forall G K n (data : list (list R)) xc yc rads,
+  wf_mat n n data -> (forall i j, (i < n)%nat -> (j < n)%nat -> 0 <= ent data i j) -> 0 < sum2 (ROps G K) data ->
+  Sorted.StronglySorted Rle rads -> Forall (fun r => 0 <= r) rads ->
+  ((0 < n / 2)%nat -> hd_error (ee_interp (ROps G K) data xc yc rads) = Some (0, 0)) /\
+  (forall q, In q (ee_interp (ROps G K) data xc yc rads) -> 0 <= snd q <= 1) /\
+  Sorted.StronglySorted Rle (map snd (ee_interp (ROps G K) data xc yc rads)) /\
+  Sorted.StronglySorted Rle (map fst (ee_interp (ROps G K) data xc yc rads)).
+Proof.
+  intros G K n data xc yc rads Hwf Hpos Htot Hrs Hr0. split; [|split; [|split]].
+  - intros Hn. apply (ee_interp_starts_at_zero G K n); assumption.
+  - intros q Hq. apply (ee_interp_range G K n data xc yc rads Hwf Hpos Htot q Hq).
+  - apply (ee_interp_monotone G K n data xc yc rads Hwf Hpos Htot Hrs Hr0).
+  - apply ee_interp_grid_sorted.
+Qed.
+Print Assumptions C16_returned_encircled_energy_curve.
+
+Theorem C16_encircled_energy_diameter : forall G K (data : list (list R)) xc yc rads fraction, (0 < length data / 2)%nat ->
+  exists k, (k < length (ee_interp (ROps G K) data xc yc rads))%nat /\
+    let c := ee_interp (ROps G K) data xc yc rads in let q := nth k c (0, 0) in
+    In q c /\ ee_diameter (ROps G K) data xc yc rads fraction = fst q /\
+    (forall q', In q' c -> Rabs (snd q - fraction) <= Rabs (snd q' - fraction)) /\
+    (forall i, (i < k)%nat -> Rabs (snd q - fraction) < Rabs (snd (nth i c (0, 0)) - fraction)).
+Proof. exact ee_diameter_spec. Qed.
+
+(* numpy.interp as modelled: within the range of the node values, monotone for monotone node values *)
+Theorem C16_interp_is_bounded_and_monotone : forall G K x y xp fp m M, length xp = length fp -> (1 <= length xp)%nat ->
+  (Forall (fun f => m <= f <= M) fp -> m <= np_interp (ROps G K) x xp fp <= M) /\
+  (Sorted.StronglySorted Rle fp -> x <= y -> np_interp (ROps G K) x xp fp <= np_interp (ROps G K) y xp fp).
+Proof. intros G K x y xp fp m M Hl H1; split; [intros H; apply np_interp_bounds; assumption|intros Hs Hxy; apply np_interp_monotone; assumption]. Qed.
 
 Example C16_nonvacuous : wf_mat (1 * 2) (2 * 2) [[1;2;3;4];[5;6;7;8]] /\ (0 < 2)%nat.
 Proof. split; [split; [reflexivity|repeat constructor]|repeat constructor]. Qed.
